@@ -191,6 +191,9 @@ class OrderAnalysis:
                             safe, why = self.loop_body_order_free(node)
                             if not safe:
                                 safe, why = self.own_entry_effects(node, fn, ci, mname)
+                            if safe and self._loop_var_escapes(fn, node, parents):
+                                # commuting iterations do not help if the LAST element is used afterwards
+                                safe, why = False, ''
                             out.append(self._site(fn, mname, qn, node.iter, el, 'for', safe, why, node))
                     elif isinstance(node, ast.comprehension):
                         el = self.set_elem(node.iter, env, ci)
@@ -232,6 +235,69 @@ class OrderAnalysis:
                             safe = isinstance(par, ast.Set)
                             out.append(self._site(fn, mname, qn, node.value, el, 'star', safe, 'unpacked into a set display' if safe else '', node))
         return out
+
+    @staticmethod
+    def _loop_var_escapes(fn, loop: ast.For, parents) -> bool:
+        """a loop variable is read after the loop before being bound again: its value is then the last element iterated - of a set,
+        whichever that was.  "After" follows the control flow through enclosing loops: the rest of the enclosing body, then the
+        enclosing body from its start (next iteration), outwards."""
+        names = {n.id for n in ast.walk(loop.target) if isinstance(n, ast.Name)}
+        if not names:
+            return False
+        inside = {id(n) for n in ast.walk(loop)}
+
+        def mentions(stmts):
+            out = []
+            for st in stmts:                     # in execution order of the statements; by position inside one statement
+                here = []
+                stack = [st]
+                while stack:
+                    n = stack.pop()
+                    if isinstance(n, (ast.FunctionDef, ast.AsyncFunctionDef, ast.Lambda, ast.ClassDef)) or id(n) in inside:
+                        continue
+                    if isinstance(n, ast.Name) and n.id in names:
+                        here.append(n)
+                    stack.extend(ast.iter_child_nodes(n))
+                out.extend(sorted(here, key=lambda n: (n.lineno, n.col_offset)))
+            return out
+
+        def first_is_load(ms, name):
+            ms = [m for m in ms if m.id == name]
+            if not ms:
+                return None
+            # `x = f(x)`: the right-hand side is evaluated first although the target comes first in the text
+            m0 = ms[0]
+            if isinstance(m0.ctx, ast.Store):
+                same = [m for m in ms if m.lineno == m0.lineno and isinstance(m.ctx, ast.Load)]
+                return bool(same)
+            return True
+        cur = loop
+        pending = set(names)
+        while cur in parents and pending:
+            par = parents[cur]
+            for fld in ('body', 'orelse', 'finalbody'):
+                blk = getattr(par, fld, None)
+                if isinstance(blk, list) and cur in blk:
+                    after = blk[blk.index(cur) + 1:]
+                    seq = list(after)
+                    if isinstance(par, (ast.For, ast.While)) and fld == 'body':
+                        seq = after + blk[:blk.index(cur)] + [par.test] if isinstance(par, ast.While) else after + blk[:blk.index(cur)]
+                    ms = mentions(seq)
+                    for nm in sorted(pending):
+                        r = first_is_load(ms, nm)
+                        if r is True:
+                            return True
+                        if r is False:
+                            pending.discard(nm)
+                    if isinstance(par, ast.For) and fld == 'body':
+                        # re-binding by the enclosing loop's own target
+                        for nm in list(pending):
+                            if any(isinstance(n, ast.Name) and n.id == nm for n in ast.walk(par.target)):
+                                pending.discard(nm)
+            if isinstance(par, (ast.FunctionDef, ast.AsyncFunctionDef)):
+                break
+            cur = par
+        return False
 
     def _module_of(self, node) -> str | None:
         parents = self._all_parents()
